@@ -117,17 +117,33 @@ UNIT = {
              {'rule': 'R2', 'regex': r'MaybeRef::Direct\(ref inner\) => inner\.to_primitive\(update\)', 'replace': 'MaybeRef::Direct(ref inner) => (**inner).to_primitive(update)'}]),
 
   # ---- Lazy<T>
-  'Lazy::load': {'kind': 'fn', 'file': M, 'container': r'^impl<T: Object \+ DataSize> Lazy<T>$', 'name': 'load', 'props': RD, 'ret': 'res',
-      'ensures': [('load_cached', 'self.cache.peek() matches Some(m) ==> res == Ok::<MaybeRef<T>, PdfError>(m)'),
-                  ('load_spec', 'self.cache.peek() is None ==> maybe_reads::<T>(self.primitive, %s, res)' % ST),
-                  ('load_keeps_full_reference', 'self.cache.peek() is None ==> (self.primitive matches Primitive::Reference(id) ==> (res matches Ok(m) ==> m matches MaybeRef::Indirect(rc) && rc.inner == id))'),
-                  ('load_dangling_is_missing', 'self.cache.peek() is None ==> (self.primitive matches Primitive::Reference(id) ==> (dangling(%s, id) ==> (res matches Err(e) && is_missing(e))))' % ST)],
-      'rewrites': [sig('fn load(', 'fn load<R__: Resolve>('), sig('&impl Resolve', '&R__'),
-          {'rule': 'R7', 'regex': r'(resolve\.get\(.*?\))\.map\(MaybeRef::Indirect\)', 'replace': r'hoist_map_indirect(\1)'},
-          {'rule': 'R7', 'regex': r'(T::from_primitive\([^|]*?\))\.map\(\|o\| MaybeRef::Direct\(Arc::new\(o\)\)\)', 'replace': r'hoist_map_direct(\1)'},
-          # R8: the initialiser closure is evaluated in place, on an empty cell only (contract of OnceCell::get_or_try_init)
-          {'rule': 'R8', 'regex': r'self\.cache\.get_or_try_init\(\|\| \{(.*)\}\)\.cloned\(\)',
-           'replace': r'hoist_cloned(match self.cache.get() { Some(w__) => Ok(w__), None => { let init__ = {\1}; hoist_once_init(&self.cache, init__) } })'}]},
+  # The memo cell is filled through `&self` (once_cell interior mutability). Model (R8, as units/cachetransp does for the caches):
+  # the method takes `&mut self`, so the content of the cell AFTER the call can be stated. Obligations of the first group say what
+  # a load on an EMPTY cell answers (C18/C15); the C12 group says the memo is invisible: what the cell holds afterwards is exactly
+  # what was handed out (same MaybeRef kind, same reference), a filled cell is handed out unchanged, and -- representation invariant
+  # `memo_ok` (the cell is empty or holds what the uncached load of `primitive` answers) -- every call answers as the uncached load.
+  'MaybeRef::data': {'kind': 'fn', 'file': M, 'container': r'^impl<T> MaybeRef<T>$', 'name': 'data', 'props': ['C12'],
+      'ensures': [('data_is_shared_value', '*r == maybe_data(*self)')]},
+  'Lazy::load': {'kind': 'fn', 'file': M, 'container': r'^impl<T: Object \+ DataSize> Lazy<T>$', 'name': 'load', 'props': RD + ['C12'], 'ret': 'res',
+      'ensures': [('load_cached', 'old(self).cache.peek() matches Some(m) ==> res == Ok::<MaybeRef<T>, PdfError>(m)'),
+                  ('load_spec', 'old(self).cache.peek() is None ==> maybe_reads::<T>(old(self).primitive, %s, res)' % ST),
+                  ('load_keeps_full_reference', 'old(self).cache.peek() is None ==> (old(self).primitive matches Primitive::Reference(id) ==> (res matches Ok(m) ==> m matches MaybeRef::Indirect(rc) && rc.inner == id))'),
+                  ('load_dangling_is_missing', 'old(self).cache.peek() is None ==> (old(self).primitive matches Primitive::Reference(id) ==> (dangling(%s, id) ==> (res matches Err(e) && is_missing(e))))' % ST),
+                  # ---- C12
+                  ('memo_is_the_answer', 'old(self).cache.peek() is None ==> (res matches Ok(m) ==> final(self).cache.peek() == Some(m)) && (res is Err ==> final(self).cache.peek() is None)'),
+                  ('memo_hit_left_alone', 'old(self).cache.peek() is Some ==> final(self).cache.peek() == old(self).cache.peek()'),
+                  ('primitive_kept', 'final(self).primitive == old(self).primitive'),
+                  ('answers_as_uncached_load', 'memo_ok(*old(self), %s) ==> maybe_reads::<T>(old(self).primitive, %s, res) && memo_ok(*final(self), %s)' % (ST, ST, ST))],
+      'rewrites': [sig('fn load(', 'fn load<R__: Resolve>('), sig('&impl Resolve', '&R__'), sig('(&self,', '(&mut self,', 'R8'),
+          {'rule': 'R7', 'count': '*', 'regex': r'(resolve\.get\(.*?\))\.map\(MaybeRef::Indirect\)', 'replace': r'hoist_map_indirect(\1)'},
+          {'rule': 'R7', 'count': '*', 'regex': r'(T::from_primitive\([^|]*?\))\.map\(\|o\| MaybeRef::Direct\(Arc::new\(o\)\)\)', 'replace': r'hoist_map_direct(\1)'},
+          # R8: the initialiser closure is evaluated in place, on an empty cell only, and its Ok value is what the cell keeps
+          # (contract of OnceCell::get_or_try_init); `.cloned()` is part of the two helpers
+          {'rule': 'R8', 'count': '*', 'regex': r'self\.cache\.get_or_try_init\(\|\| \{(.*)\}\)\.cloned\(\)',
+           'replace': r'{ let cur__ = hoist_cell_get_cloned(&self.cache); match cur__ { Some(w__) => Ok(w__), None => { let init__ = {\1}; hoist_once_init(&mut self.cache, init__) } } }'},
+          # other spellings of the same memo (get / compute / set by hand): OnceCell::get, OnceCell::set, MaybeRef::clone are env models
+          {'rule': 'R7', 'count': '*', 'regex': r'(?<![\w:])Arc::new\(', 'replace': 'hoist_shared_new('},
+      ]},
   'lazy_from_primitive': reader(r'^impl<T: Object> Object for Lazy<T>$', 'lazy_from_primitive', 'Lazy<T>',
       [('lazy_keeps_primitive', 'res matches Ok(l) && l.primitive == p'),
        ('lazy_defers', 'res matches Ok(l) && l.cache.peek() is None')],
